@@ -15,13 +15,16 @@ RULE = ('message sequences from an independent RFC 7230 serializer (harness/stre
 	'non-trivial = distinct message sequence with at least one body or repeated field')
 EXHAUSTIVE = {'quick': False, 'thorough': False}
 TRUSTED = pc.TRUSTED_COMMON + ['harness/streams.py gen_wf: the independent serializer and its ground truth']
-ASSUMPTIONS = ['GET/HEAD/TRACE requests that carry a payload are refused by policy (known finding D57) and excluded from the comparison', 'responses whose reason phrase is empty are refused by the client (known finding D48) and excluded from the comparison', 'requests that carry neither Content-Length nor chunked framing are compared only when nothing follows them in the same parse() call (known finding D13)']
+ASSUMPTIONS = ['304 responses that carry a Content-Length are read with a body by the client (known finding D50) and excluded from the comparison', 'GET/HEAD/TRACE requests that carry a payload are refused by policy (known finding D57) and excluded from the comparison', 'responses whose reason phrase is empty are refused by the client (known finding D48) and excluded from the comparison', 'requests that carry neither Content-Length nor chunked framing are compared only when nothing follows them in the same parse() call (known finding D13)']
 D13 = 'D13-411-buffer-peek'
 D48 = 'D48-empty-reason-phrase'
 D57 = 'D57-payload-on-get-head-trace'
+D50 = 'D50-client-reads-body-of-bodiless-response'
+_W50 = b'HTTP/1.1 304 Not Modified\r\nContent-Length: 5\r\n\r\n'
 _W57 = b'GET / HTTP/1.1\r\nHost: h\r\nContent-Length: 2\r\n\r\nab'
 _W48 = b'HTTP/1.1 204 \r\nX: y\r\n\r\n'
 WITNESSES = [(D48, {'k': 'wf', 'kind': 'client', 'gt': [{'version': [1, 1], 'status': 204, 'reason': '', 'fields': {'x': [b'y'.hex()]}, 'body': '', 'framed': True}], 'sers': [_W48.hex()], 'trunc': [5]}),
+	(D50, {'k': 'wf', 'kind': 'client', 'gt': [{'version': [1, 1], 'status': 304, 'reason': 'Not Modified', 'rep_length': 5, 'fields': {'content-length': [b'5'.hex()]}, 'body': '', 'framed': True}], 'sers': [_W50.hex()], 'trunc': [5]}),
 	(D57, {'k': 'wf', 'kind': 'server', 'gt': [{'version': [1, 1], 'method': 'GET', 'path': '/', 'query': '', 'host': 'h', 'target': b'/'.hex(), 'fields': {'host': [b'h'.hex()], 'content-length': [b'2'.hex()]}, 'body': b'ab'.hex(), 'framed': True}], 'sers': [_W57.hex()], 'trunc': [5]})]
 
 
@@ -85,7 +88,7 @@ def _match(kind, gt, m):
 	# repeated fields: one field whose value is the list joined by the separator of that field (Cookie: '; ')
 	exp = {k: (b'; ' if k == 'cookie' else b', ').join(bytes.fromhex(x) for x in v) for k, v in gt['fields'].items()}
 	exp.pop('transfer-encoding', None)
-	exp['content-length'] = b'%d' % (len(gt['body']) // 2)
+	exp['content-length'] = b'%d' % (gt.get('rep_length') or len(gt['body']) // 2)   # (a 304 may announce the length of the representation it does not carry)
 	if h != exp:
 		diff = {k: (h.get(k), exp.get(k)) for k in set(h) | set(exp) if h.get(k) != exp.get(k)}
 		return 'header fields differ (delivered, sent): %r' % (diff,)
@@ -146,6 +149,11 @@ def oracle(c, o):
 
 
 def classify(c, o, fail):
+	import re
+	m50 = re.search(r'after (\d+) octets (\d+) message\(s\) delivered, (\d+) wholly received', fail) or re.search(r'cut at .*: after (\d+) octets (\d+) delivered, (\d+) wholly received', fail)
+	if m50 and c['kind'].startswith('client') and int(m50.group(2)) < int(m50.group(3)) and int(m50.group(2)) < len(c['gt']) and c['gt'][int(m50.group(2))].get('rep_length'):
+		# the first message not delivered in time is a 304 that announces a representation length: the client waits for that many body octets
+		return D50
 	if 'refused with 411' in fail and any(r.get('raised_411') for r in o['runs']) and any(not gt['framed'] for gt in c['gt']):
 		return D13
 	import re
